@@ -35,6 +35,27 @@ Conn(h, x, at) ==
         /\ (c = at \/ \E d \in (c + 1)..at : c \in Parents(h, d) /\ f[NCm(h) - d])
   IN [c \in 1..NCm(h) |-> f[NCm(h) - c]]
 
+Increasing(s) == \A i \in 1..(Len(s) - 1) : s[i] < s[i + 1]
+\* First-parent-determinate class: every version is strictly increasing (no duplicates, no moves), but a
+\* symbol may be introduced by several commits (independently on two branches, or again after a deletion).
+\* Two increasing versions have exactly one longest common subsequence - all their common symbols - so every
+\* minimal diff aligns every common line, and git's rule decides the answer: a parent whose version is
+\* identical to the commit's takes everything (the first such parent, whatever its position); otherwise a line
+\* goes to the FIRST parent (in parent order) that has it; a line no parent has is the commit's own.
+FPDet(h) == \A c \in 1..NCm(h) : Increasing(h.ver[c])
+FPOriginMap(h) ==
+  LET O[c \in 1..NCm(h)] ==
+        LET same == {k \in 1..Len(h.par[c]) : h.ver[h.par[c][k]] = h.ver[c]}
+        IN [i \in DOMAIN h.ver[c] |->
+              LET x == h.ver[c][i]
+                  with == {k \in 1..Len(h.par[c]) : Has(h.ver[h.par[c][k]], x)}
+                  k == IF same # {} THEN CHOOSE a \in same : \A b \in same : a <= b
+                       ELSE IF with # {} THEN CHOOSE a \in with : \A b \in with : a <= b ELSE 0
+              IN IF k = 0 THEN c
+                 ELSE LET p == h.par[c][k]  pi == CHOOSE q \in DOMAIN h.ver[p] : h.ver[p][q] = x IN O[p][pi]]
+  IN O
+FPOrigin(h, at) == FPOriginMap(h)[at]
+
 HasMerge(h, at) == \E c \in AncOf(ParSet(h.par))[at] : Len(h.par[c]) > 1
 
 Clauses(h, at, out) ==
@@ -48,7 +69,6 @@ WhyNot(h, at, out) == LET k == Clauses(h, at, out) IN
   IF ~k.length THEN "length" ELSE IF ~k.contains THEN "line-not-passed-down-to-blamed-commit"
   ELSE IF ~k.changed THEN "blamed-commit-equals-a-parent" ELSE IF ~k.count THEN "more-copies-than-the-commit-has" ELSE "ok"
 
-Increasing(s) == \A i \in 1..(Len(s) - 1) : s[i] < s[i + 1]
 Intro(h, x) == {c \in 1..NCm(h) : Has(h.ver[c], x) /\ \A p \in Parents(h, c) : ~Has(h.ver[p], x)}
 Symbols(h) == UNION {SeqRange(h.ver[c]) : c \in 1..NCm(h)}
 Determinate(h) == /\ \A c \in 1..NCm(h) : Increasing(h.ver[c])
@@ -59,7 +79,8 @@ Row(hi) == LET h == HistSeq[hi] IN
   [h |-> hi, par |-> h.par, tm |-> h.tm, ver |-> h.ver, det |-> Determinate(h),
    anc |-> [c \in 1..NCm(h) |-> SetToSeq(AncOf(ParSet(h.par))[c])],
    merge |-> [c \in 1..NCm(h) |-> HasMerge(h, c)],
-   origin |-> IF Determinate(h) THEN [c \in 1..NCm(h) |-> Origin(h, c)] ELSE <<>>]
+   origin |-> IF Determinate(h) THEN [c \in 1..NCm(h) |-> Origin(h, c)] ELSE <<>>,
+   fp |-> FPDet(h), fporigin |-> IF FPDet(h) THEN FPOriginMap(h) ELSE <<>>]
 ASSUME Emit => ndJsonSerialize("blame_hist.ndjson", [hi \in 1..Len(HistSeq) |-> Row(hi)])
 
 VARIABLES hi, at
@@ -72,6 +93,9 @@ H0 == HistSeq[hi]
 \* only admissible answer that blames the introducing commit of each symbol
 OriginAdmissible == Determinate(H0) => Admissible(H0, at, Origin(H0, at))
 OriginIsAncestor == Determinate(H0) => \A i \in DOMAIN H0.ver[at] : Origin(H0, at)[i] \in AncOf(ParSet(H0.par))[at]
+\* on the determinate class the first-parent rule gives the introducing commit; its answer is always admissible
+FPAgreesWithOrigin == Determinate(H0) => FPOrigin(H0, at) = Origin(H0, at)
+FPAdmissible       == FPDet(H0) => Admissible(H0, at, FPOrigin(H0, at))
 \* blaming `at` for everything is admissible exactly when `at` differs from all its parents ... and only then
 SelfBlame == Admissible(H0, at, [i \in DOMAIN H0.ver[at] |-> at]) <=> (\A p \in Parents(H0, at) : H0.ver[p] # H0.ver[at])
 =============================================================================
